@@ -417,8 +417,32 @@ def check(ctx):
            key="C09.3:so3_log:guard")
     # --------------------------------------------------------------- C09.4
     f = prog.func(L + "so3_log_angle")
-    for deg in (False, True):
-        res = Interp(prog, assume=_single).run(f, {"degrees": const(deg)})
+    # the unit is chosen by the `degrees` flag, or by a parameter that takes
+    # a member radians / degrees of a unit enumeration
+    if "degrees" in f.params:
+        worlds = [(False, {"degrees": const(False)}),
+                  (True, {"degrees": const(True)})]
+    else:
+        import ast as _ast
+        ctx.require(len(f.params) >= 2, "so3_log_angle signature changed")
+        sel = f.params[1]
+        dn = f.defaults().get(sel)
+        ev_ = None
+        if dn is not None:
+            from ..interp import Frame
+            ev_ = Interp(prog).eval(dn, Frame(None, f.module, {}, {}, None,
+                                              99), tm.TRUE)
+            while ev_.op == "named":
+                ev_ = ev_.args[1]
+        ctx.require(ev_ is not None and ev_.op == "enum" and
+                    {"radians", "degrees"} <= set(
+                        prog.enum_members(ev_.args[0]) or ()),
+                    "so3_log_angle signature changed (unit selector not "
+                    "recognised)")
+        worlds = [(False, {sel: tm.enum(ev_.args[0], "radians")}),
+                  (True, {sel: tm.enum(ev_.args[0], "degrees")})]
+    for deg, cfg_ in worlds:
+        res = Interp(prog, assume=_single).run(f, dict(cfg_))
         # the property speaks about genuine group elements: a separate
         # treatment of matrices that fail the membership test is outside it
         member = tm.call(tm.func(L + "is_so3"), (tm.param("r"),), ())
